@@ -66,6 +66,9 @@ ResultSound ==
 NeverStuck == (phase = "pre") => Outcomes(case) # {}
 
 (* C07 *)
+MaximalIsUnbeaten ==
+  (phase = "pre" /\ Len(case.pop) <= 6) => \A S \in SUBSET Idx(case.pop) :
+     Maximal(case.pop, S) = Unbeaten(case.pop, S) /\ Minimal(case.pop, S) = Unbeating(case.pop, S)
 Pressure ==
   (Post /\ res.k = "member") =>
      /\ (case.sel = "best"  => \A j \in Idx(case.pop) : case.pop[j].score <= case.pop[res.i].score)
